@@ -194,9 +194,19 @@ where
                     format!("type mismatch: expected Array(Array::Integer), got {v:?}"),
                 ));
             }
-            None => {}
+            // A missing value is written as a single missing entry.
+            None => max_len = cmp::max(max_len, 1),
         }
     }
+
+    if max_len == 0 {
+        return Err(io::Error::new(
+            io::ErrorKind::InvalidInput,
+            "missing integer array values",
+        ));
+    }
+
+    let (min, max) = if min > max { (0, 0) } else { (min, max) };
 
     if min >= i32::from(Int8::MIN_VALUE) {
         if max <= i32::from(Int8::MAX_VALUE) {
